@@ -198,6 +198,7 @@ func RunFlow(w *World, spec *RunSpec, tune func(f *Flow)) *Flow {
 		return q
 	}
 	w.Broker.Opts.Refuse = f.Refuse
+	w.Broker.Opts.NoConnack = f.O.MuteBroker
 	f.HostileLeft = f.O.HostileN
 	if f.O.HostileHandshake > 0 {
 		w.Broker.HandshakeHook = f.hostileHandshake
@@ -903,6 +904,16 @@ func init() {
 		o.Inbound = f.W.Tape.Draw("nin12", 4)
 		o.QuitMix = [4]int{3, 1, 1, 1}
 		o.LazyExchanges = f.W.Tape.Flip("lazy-exchanges", 400)
+		// dials that hang until cancelled and a broker that never answers
+		// CONNECT: only Close/Disconnect can end those waits
+		o.Net.DialHangForever = true
+		if f.W.Tape.Flip("dialhang12", 300) {
+			o.Net.DialHang = 400
+			if o.Budget < 2 {
+				o.Budget = 2
+			}
+		}
+		o.MuteBroker = f.W.Tape.Flip("mute12", 150)
 	}
 	register("C12", Family{Name: "closers", Weight: 3, Run: flowFamily(closeTune, "closer_dialing", "closer_awaiting-connack", "closer_resending", "closer_online-writer-in-flight", "closer_offline", "closer_online", "closer_never-connected")},
 		Family{Name: "close-sweep", Weight: 1, Sweep: true, Run: func(w *World, spec *RunSpec, res *RunResult) {
